@@ -67,8 +67,12 @@ unsigned int get_rex_prefix(struct instr *all_instr, struct operand *m,
   int rex_prefix = 0;
   unsigned int rm = m->reg;
   // preprocess vex paremeters
+  // the operand size follows the register operand (or a keyword), never the
+  // width of the registers that form the address of a memory operand
+  if (all_instr->mem_disp)
+    rm = (rm & MODE_CLEAR) | reg64;
   all_instr->hex.is_w0 = true;
-  if ((m->reg & MODE_MASK) < reg64)
+  if (((all_instr->mem_disp ? r->reg : m->reg) & MODE_MASK) < reg64)
     all_instr->hex.is_w0 = false;
   if ((m->reg & MODE_MASK) == mmx64 || (r->reg & MODE_MASK) == mmx64)
     return get_vector_rex_prefix(all_instr, m->reg, r->reg);
@@ -109,17 +113,18 @@ void sib_no_base(struct instr *instrc, struct operand *m) {
         instrc->sib_disp = SIB;
         break;
       default:
-
-        m->reg = NO_BASE;
         instrc->no_base = true;
         break;
       }
     } else {
-      m->reg = NO_BASE;
       instrc->no_base = true;
     }
-    if (m->reg == NO_BASE)
+    // mod=00 with base=101 denotes [scaled index + disp32]; like any other
+    // address it does not restrict the operand size
+    if (instrc->no_base) {
+      m->reg = reg64 | NO_BASE;
       instrc->mod_disp = 0;
+    }
   }
 }
 
